@@ -25,6 +25,7 @@ from fractions import Fraction
 from ..common import Result, finish, run_shards, seed as get_seed, shard_main
 
 PROP = 'C11'
+NO_MEMORY_LIMIT = True     # the AddressSanitizer builds reserve terabytes of address space
 RULE = ('one evaluation = one (program, option set, argument vector, build) whose printed result was compared with the interpreter; non-trivial = comparisons '
         'on programs that change the rounding mode or storage type inside (with-blocks), call a helper or return a list / tuple; distinct by all four')
 
